@@ -38,12 +38,14 @@ def run(chk):
     thorough = chk.tier == "thorough"
     s = G.Session(chk)
     if thorough:
-        s.job("exhaustive agreed: tracking/withdraw/close, 5 blocks", "agreed", ["Tracking", "Withdraw", "RealWithdraw", "Close", "Review", "Reject"],
-              5, workers=4, rolls=0, timeout=1700)
-        s.job("exhaustive duty: registration to withdrawal, 5 blocks", "duty", ["Proposal", "Review", "Withdraw", "Tracking"], 5,
-              workers=4, rolls=0, timeout=1700)
-        s.job("duty: registration and reviews", "duty", BUDGET_KINDS + ["Impeach"], 4, emit="all", limit=6000, rolls=1)
-        s.job("agreed: tracking, withdrawal, close", "agreed", BUDGET_KINDS, 4, emit="all", limit=6000, rolls=1)
+        s.job("exhaustive agreed: tracking/withdraw/close/review/reject, 4 blocks", "agreed",
+              ["Tracking", "Withdraw", "RealWithdraw", "Close", "Review", "Reject"], 4, workers=2, rolls=0, timeout=1700)
+        s.job("exhaustive duty: registration to withdrawal, 4 blocks", "duty", ["Proposal", "Review", "Withdraw", "Tracking"], 4,
+              workers=2, rolls=0, timeout=1700)
+        s.job("duty: registration and reviews", "duty", ["Proposal", "Review", "Reject", "Approp", "Impeach"], 3, emit="all",
+              limit=4000, rolls=1)
+        s.job("agreed: tracking, withdrawal, close", "agreed", ["Tracking", "Withdraw", "RealWithdraw", "Close", "Review", "Reject"], 3,
+              emit="all", limit=4000, rolls=1)
         s.job("simulation duty, 30 steps", "duty", BUDGET_KINDS + ["Impeach", "Claim"], 30, emit="last", simulate="num=500", rolls=2,
               timeout=1700)
         s.job("simulation election, 30 steps", "election", G.ALL_KINDS, 30, emit="last", simulate="num=300", rolls=2, timeout=1700)
